@@ -85,6 +85,20 @@ def check_graph(text, g):
                 exp.append(tgt)
             if b["next"] != exp:
                 errs.append(f"block {b['idx']} ends in {b['ins'][-1]!r}: successors {b['next']} but fall-through/target order gives {exp}")
+        elif kind == "multi":
+            # switch / match: fall-through (unless it is the last retained instruction) first, then the targets in
+            # the order written, each block once; a target label must itself be retained
+            exp = []
+            if ft is not None and not is_last:
+                exp.append(ft)
+            for lab in labs:
+                tgt = label_block.get(lab, (None, 0))[0]
+                if tgt is None:
+                    errs.append(f"block {b['idx']} ends in {b['ins'][-1]!r}: target label {lab} is not in the graph")
+                elif tgt not in exp:
+                    exp.append(tgt)
+            if b["next"] != exp:
+                errs.append(f"block {b['idx']} ends in {b['ins'][-1]!r}: successors {b['next']} but fall-through/target order gives {exp}")
         elif kind == "b":
             tgt = label_block.get(labs[0], (None, 0))[0]
             if tgt is not None and b["next"] != [tgt]:
